@@ -508,6 +508,7 @@ def _strategy_base():
             self._log('on_increased_position', getattr(order, '_vf_oid', -1))
             self._log_liq()
             self._apply_exits(self.spec.get('on_increased'), self.position.entry_price, 'on_increased_position')
+            self._react(self.spec.get('on_increased'), 'on_increased_position')
 
         def on_reduced_position(self, order):
             self._log('on_reduced_position', getattr(order, '_vf_oid', -1))
